@@ -166,6 +166,11 @@ Holds(e, name) ==
          C12_Residual(g, IntFieldOf(g, cf.alpha), cf.dt, IntFieldOf(g, cf.old), MatOf(o.Aspatial),
                       IntFieldOf(g, o.gamma), FieldOf(g, o.r_solve))
     [] name = "C12_History" -> C04_Solves(g, FieldOf(g, cf.xstar2), FieldOf(g, o.r_history))
+    [] name = "C12_Limits" ->      \* floating-point observation, generous thresholds (DESIGN 8): 1e-9 units
+         o.limits.checked =>
+            /\ o.limits.inf <= 100000          \* |x(dt=1e12) - steady| <= 1e-4 (relative to the data)
+            /\ o.limits.zero <= 100000         \* |x(dt=1e-12) - old|   <= 1e-4
+            /\ o.limits.ratio_milli >= 2000    \* implicit - explicit difference at least halves twice... O(dt^2): ~4
     [] name = "C12_FixedPoint" -> C04_Solves(g, FieldOf(g, cf.xstar), FieldOf(g, o.r_fixed))
     [] name = "C12_ExplicitStep" ->
          C12_ExplicitStep(g, o.dt_explicit, FieldOf(g, o.in_explicit), FieldOf(g, o.rhs_explicit),
